@@ -4823,10 +4823,16 @@ impl Command {
     pub(crate) fn format_group(&self, g: &Id) -> StyledStr {
         use std::fmt::Write as _;
 
-        let g_string = self
+        let members = self
             .unroll_args_in_group(g)
             .iter()
             .filter_map(|x| self.find(x))
+            .collect::<Vec<_>>();
+        // Hidden members are not advertised, unless nothing else could satisfy the group
+        let all_hidden = members.iter().all(|x| x.is_hide_set());
+        let g_string = members
+            .into_iter()
+            .filter(|x| all_hidden || !x.is_hide_set())
             .map(|x| {
                 if x.is_positional() {
                     // Print val_name for positional arguments. e.g. <file_name>
